@@ -266,6 +266,23 @@ def gen_list_assign(rng, spec, cfg, closure_names, i):
     return {"op": "set", "obj": name, "attr": attr, "value": ["refs", new]}
 
 
+def gen_assign_slice(rng, spec, cfg, closure_names, i):
+    """obj.attr = obj.attr[a:b] + [...]: slicing reads feeding an assignment (upstream's own idiom)."""
+    cands = list_cands(spec)
+    if not cands:
+        return None
+    name = pick_obj(rng, spec, cands, closure_names)
+    attr, elt_classes = LIST_ATTRS[spec["objs"][name]["cls"]]
+    cur = list(spec["objs"][name]["attrs"][attr][1])
+    pool = by_cls(spec, elt_classes)
+    start, stop = rng.choice([(None, -1), (1, None), (None, None), (0, 1), (None, 0), (-1, None)])
+    plus = [rng.choice(pool) for _ in range(rng.choice([0, 0, 1, 2]))] if pool else []
+    new = cur[start:stop] + plus
+    if attr == "devices" and not new:
+        return None
+    return {"op": "assign_slice", "obj": name, "attr": attr, "start": start, "stop": stop, "plus": plus}
+
+
 def gen_list_op(rng, spec, cfg, closure_names, i, include_system=False):
     cands = list_cands(spec)
     if not cands:
@@ -448,7 +465,7 @@ def gen_noop(rng, spec, cfg, closure_names, i):
 
 EDIT_MIX = [
     (gen_numeric, 34), (gen_categorical, 8), (gen_provider_switch, 2), (gen_hourly, 7), (gen_link, 10),
-    (gen_new_storage, 2), (gen_list_assign, 8), (gen_list_op, 10), (gen_group, 6), (gen_add_job, 4),
+    (gen_new_storage, 2), (gen_list_assign, 8), (gen_assign_slice, 3), (gen_list_op, 10), (gen_group, 6), (gen_add_job, 4),
     (gen_add_step, 3), (gen_add_up, 3), (gen_remove_up, 2), (gen_permute_ups, 2), (gen_noop, 2),
 ]
 
@@ -570,7 +587,7 @@ def gen_second_system(rng, spec, cfg, closure_names, i):
 
 
 C16_MIX = [
-    (gen_list_op_wild, 40), (gen_list_assign, 10), (gen_assign_equal, 8), (gen_link, 12), (gen_new_storage, 2),
+    (gen_list_op_wild, 40), (gen_list_assign, 10), (gen_assign_slice, 6), (gen_assign_equal, 8), (gen_link, 12), (gen_new_storage, 2),
     (gen_add_job, 5), (gen_add_step, 4), (gen_add_up, 4), (gen_remove_up, 3), (gen_permute_ups, 2),
     (gen_delete, 6), (gen_second_system, 4),
 ]
